@@ -15,7 +15,7 @@ import ast
 from ..core import AnalysisError, norm, loc, walk_no_nested, attr_chain, call_name, Record
 from ..cfg import CFG
 from ..core import func_params
-from ..normalize import clone, _replace_node, truth_under, inline, local_env, expand, canon, ctext, conjuncts, branch_values, Unknown, _enclosing
+from ..normalize import unroll_const_loops, clone, _replace_node, truth_under, inline, local_env, expand, canon, ctext, conjuncts, branch_values, Unknown, _enclosing
 from .. import flow
 from . import c02
 
@@ -156,7 +156,7 @@ def run(prog, rep):
         raise AnalysisError('Topology.validate vanished')
     vn = inline(prog, uns, vn)
     vc = inline(prog, uns, vc)
-    tv = inline(prog, topo, tv)
+    tv = inline(prog, topo, unroll_const_loops(prog, topo, tv, literal_iter=True))   # `for view in ('nodes', 'facilities'): getattr(self, view)` read row by row
     cols_read = set()
 
     def is_limit(e, col=None):
@@ -271,8 +271,9 @@ def run(prog, rep):
                               'the site limit is compared inside the loop that collects the sites, before the site of the interface being '
                               'examined is added: the site of the last interface is never counted, so a service spanning one site too many validates')
     # num_instances in Topology.validate
+    tvenv_ = local_env(tv)
     ni = [n for n in ast.walk(tv) if isinstance(n, ast.If) and isinstance(n.test, ast.Compare) and
-          '.num_instances' in ast.unparse(n.test) and 'NO_LIMIT' not in ast.unparse(n.test)]
+          '.num_instances' in ast.unparse(expand(n.test, tvenv_)) and 'NO_LIMIT' not in ast.unparse(expand(n.test, tvenv_))]
     rep.instance('R4', f'Topology.validate: {[norm(n.test, 100) for n in ni]}')
     def _is_site_count(e, at):
         # the compared quantity is the per-site tally: the value variable of a loop over the items/values of a dictionary
@@ -292,14 +293,26 @@ def run(prog, rep):
         for l in [p_ for p_ in _ancestors(at, tv) if isinstance(p_, ast.For)]:
             it = l.iter
             if not (isinstance(it, ast.Call) and isinstance(it.func, ast.Attribute) and it.func.attr in ('items', 'values') and
-                    isinstance(it.func.value, ast.Name)):
+                    isinstance(it.func.value, (ast.Name, ast.Call))):
                 continue
             tgt = l.target
             val = tgt.elts[1] if it.func.attr == 'items' and isinstance(tgt, ast.Tuple) and len(tgt.elts) == 2 else (tgt if it.func.attr == 'values' else None)
+            if isinstance(val, ast.Name) and val.id == e.id and isinstance(it.func.value, ast.Call):
+                # the tally is what a private helper of the class returns: a dictionary it increments per service
+                from ..normalize import resolve_helper
+                rh = resolve_helper(prog, topo, topo.module, it.func.value)
+                if rh is None:
+                    return False
+                hfn = rh[0]
+                rets = {r_.value.id for r_ in walk_no_nested(hfn) if isinstance(r_, ast.Return) and isinstance(r_.value, ast.Name)}
+                return bool(rets) and any(isinstance(a, ast.AugAssign) and isinstance(a.op, ast.Add) and isinstance(a.target, ast.Subscript) and
+                                          isinstance(a.target.value, ast.Name) and a.target.value.id in rets for a in ast.walk(hfn))
             if isinstance(val, ast.Name) and val.id == e.id:
                 d = it.func.value.id
+                dx = expand(it.func.value, local_env(tv))     # the tally named once more (what an inlined helper's return leaves behind)
+                ds = {d} | ({dx.id} if isinstance(dx, ast.Name) else set())
                 return any(isinstance(a, ast.AugAssign) and isinstance(a.op, ast.Add) and isinstance(a.target, ast.Subscript) and
-                           isinstance(a.target.value, ast.Name) and a.target.value.id == d for a in ast.walk(tv))
+                           isinstance(a.target.value, ast.Name) and a.target.value.id in ds for a in ast.walk(tv))
         return False
     if not ni or not (_is_site_count(expand(ni[0].test.left, local_env(tv)), ni[0]) and isinstance(ni[0].test.ops[0], ast.Gt)
                       and any(isinstance(x, ast.Raise) for x in ni[0].body)):
